@@ -103,6 +103,31 @@ def gen():
                 conflicts.append((f"{pn}|clear-view-then-reuse", f"    let mut v = mk();\n    {create}\n    t.clear();\n    {use}"))
             # the borrow must not outlive the view's own borrow of the vector
             conflicts.append((f"{pn}|drop-view-mutate-source", f"    let mut v = mk();\n    {create}\n    drop(t);\n    v.push(W::new(String::from(\"z\")));\n    {use}"))
+    # every mutating method needs an exclusive path to the vector: through a shared reference, or through the shared typed view,
+    # it must not be callable while another shared handle is alive (or at all)
+    erased_mut = {
+        "reserve": "r.reserve(1);", "reserve_exact": "r.reserve_exact(1);", "shrink_to_fit": "r.shrink_to_fit();", "shrink_to": "r.shrink_to(0);",
+        "set_len": "unsafe { r.set_len(0); }", "downcast_mut": "r.downcast_mut::<String>().unwrap().clear();", "as_bytes_mut": "sink(r.as_bytes_mut().len());",
+        "spare_bytes_mut": "sink(r.spare_bytes_mut().len());", "iter_mut": "sink(r.iter_mut().len());", "at_mut": "sink(r.at_mut(0).size());",
+        "get_mut": "sink(r.get_mut(0).map(|e| e.size()));", "get_unchecked_mut": "sink(unsafe { r.get_unchecked_mut(0) }.size());",
+        "insert": "r.insert(0, W::new(String::new()));", "push": "r.push(W::new(String::new()));", "pop": "sink(r.pop().map(|e| e.size()));",
+        "remove": "sink(r.remove(0).size());", "swap_remove": "sink(r.swap_remove(0).size());", "drain": "sink(r.drain(..).len());",
+        "splice": "sink(r.splice(0..1, [W::new(String::new())]).len());", "clear": "r.clear();",
+    }
+    for m, call in erased_mut.items():
+        conflicts.append((f"shared-path|&AnyVec.{m}", f"    let mut v = mk();\n    let h = v.at(0);\n    let r = &v;\n    {call}\n    sink(h.size());"))
+    typed_mut = {
+        "reserve": "t.reserve(1);", "reserve_exact": "t.reserve_exact(1);", "shrink_to_fit": "t.shrink_to_fit();", "shrink_to": "t.shrink_to(0);",
+        "set_len": "unsafe { t.set_len(0); }", "insert": "t.insert(0, String::new());", "push": "t.push(String::new());", "pop": "sink(t.pop());",
+        "remove": "sink(t.remove(0));", "swap_remove": "sink(t.swap_remove(0));", "drain": "sink(t.drain(..).count());",
+        "splice": "sink(t.splice(0..1, [String::new()]).count());", "clear": "t.clear();", "iter_mut": "sink(t.iter_mut().len());",
+        "at_mut": "t.at_mut(0).push('x');", "get_mut": "t.get_mut(0).unwrap().push('x');", "get_unchecked_mut": "unsafe { t.get_unchecked_mut(0) }.push('x');",
+        "as_mut_ptr": "sink(t.as_mut_ptr());", "as_mut_slice": "t.as_mut_slice()[0].push('x');", "spare_capacity_mut": "sink(t.spare_capacity_mut().len());",
+    }
+    for m, call in typed_mut.items():
+        conflicts.append((f"shared-path|AnyVecRef.{m}", f"    let mut v = mk();\n    let h = v.at(0);\n    let mut t = v.downcast_ref::<String>().unwrap();\n    {call}\n    sink(h.size());"))
+    controls.append(("shared-path|readers", "    let mut v = mk();\n    let h = v.at(0);\n    let r = &v;\n    let mut t = v.downcast_ref::<String>().unwrap();\n"
+                     "    sink((r.len(), r.capacity(), t.len(), t.at(0).len(), t.as_slice().len(), t.iter().count(), t.as_ptr(), r.as_bytes().len()));\n    sink(h.size());"))
     # an exclusive handle must not be duplicable
     for pn in ("at_mut", "get_mut", "iter_mut", "pop", "remove", "swap_remove", "drain", "splice", "drained_element", "downcast_mut"):
         create, use, _e, _o, _t = PRODUCERS[pn]
